@@ -49,8 +49,9 @@ Definition bit (n k : N) : bool := N.odd (n / 2 ^ k).
 
 Definition dec_connect (v : ver) (l : bytes) : option body :=
   match l with
-  | 0 :: 4 :: 77 :: 81 :: 84 :: 84 :: lv :: fl :: t =>
-    if negb (lv =? (if is_v5 v then 5 else 4)) then None else
+  | b0 :: b1 :: b2 :: b3 :: b4 :: b5 :: lv :: fl :: t =>
+    (* protocol name "MQTT" and the protocol level of this version *)
+    if negb (nlist_eqb [b0; b1; b2; b3; b4; b5; lv] [0; 4; 77; 81; 84; 84; (if is_v5 v then 5 else 4)]) then None else
     if bit fl 0 then None else
     do '(ka, t) <- dec_u16 t;
     do '(ps, t) <- dec_vprops v t;
